@@ -71,6 +71,21 @@ func (f *Expt) Call(s *slip.Scope, args slip.List, depth int) (result slip.Objec
 			}
 		}
 	}
+	if pow, ok := args[1].(*slip.Bignum); ok {
+		// With an exponent beyond a fixnum the exact result can only be
+		// represented for the bases 0, 1, and -1.
+		if base, ok2 := args[0].(slip.Fixnum); ok2 && -1 <= base && base <= 1 {
+			switch {
+			case base == 0 && (*big.Int)(pow).Sign() < 0:
+				slip.DivisionByZeroPanic(s, depth, f, args, "divide by zero")
+			case base == 0:
+				return slip.Fixnum(0)
+			case base == -1 && (*big.Int)(pow).Bit(0) == 1:
+				return slip.Fixnum(-1)
+			}
+			return slip.Fixnum(1)
+		}
+	}
 	if base, ok := args[0].(slip.Fixnum); ok {
 		if pow, ok2 := args[1].(slip.Fixnum); ok2 {
 			x := math.Pow(float64(base), float64(pow))
